@@ -52,7 +52,7 @@ def stopText : Stop → String
 def specStep (c : Cfg) (scn : String) (cd : CallDef) (vars : Vars Char) : Outcome × Bool × Option (String × String) :=
   let payload := cd.payload.map fun (fname, kind, t) => (fname, pvalOf kind (String.ofList (render vars t)))
   let md := cd.md.map fun (k, t) => (k, String.ofList (render vars t))
-  let tag := scn ++ ".t" ++ cd.name
+  let tag := scn ++ "." ++ cd.tag
   if callBad cd then ({ calls := [], samples := [sampleText tag 0] }, false, none) else
   match lookupMethod cd.call with
   | none => ({ calls := [], samples := [sampleText tag 0] }, false, none)
